@@ -123,8 +123,8 @@ def _check_map_cfg(cfg, probes):
             if a.physical is not None:
                 return f"RAM bank {bank:#x} has offset"
             continue
-        if not busmath.in_window(e["mask"], addr):
-            continue
+        if not busmath.in_window(e["mask"], addr) or (addr & 0xFFFF) < e["alo"]:
+            continue  # below the declared window (e.g. the lower half of a 64K bank declared with addr_range=0x8000,0xffff) the statement assigns no offset
         off = busmath.rom_offset(first, e["mask"], addr)
         if a.physical != off:
             return f"{addr:#x}: offset {a.physical} != {off}"
@@ -156,7 +156,7 @@ def gen_cfg(rng):
             if len(banks) == sum(c - a + 1 for a, c in rngs) and not (banks & used):
                 used |= banks
                 mask = rng.choice([0x8000, 0x10000])
-                cfg.append({"id": i + 1, "lo": lo, "hi": hi, "mask": mask, "alo": 0x10000 - mask, "ram": rng.random() < 0.25, "mirror": mirror, "style": rng.choice(["hex", "hex", "dec", "bin"])})
+                cfg.append({"id": i + 1, "lo": lo, "hi": hi, "mask": mask, "alo": (0x10000 - mask) if (mask == 0x8000 or rng.random() < 0.6) else 0x8000, "ram": rng.random() < 0.25, "mirror": mirror, "style": rng.choice(["hex", "hex", "dec", "bin"])})
                 break
     return cfg
 
